@@ -33,7 +33,7 @@ build_harness() { # profile...
   return 0
 }
 
-needs_dbgchk() { case "$1" in C04|C08|C12|C13|C15|C16|C19|setup) return 0;; *) return 1;; esac; }
+needs_dbgchk() { case "$1" in C04|C07|C08|C12|C13|C15|C16|C19|setup) return 0;; *) return 1;; esac; }
 
 if [ $# -lt 1 ]; then echo "usage: $0 <ID> quick|thorough | <ID> --replay <file> | setup" >&2; exit 2; fi
 ID="$1"; shift
@@ -53,7 +53,7 @@ fi
 
 profiles=(release)
 if needs_dbgchk "$ID"; then profiles+=(dbgchk); fi
-if [ "$ID" = "C19" ] || [ "$ID" = "C04" ]; then profiles+=(dbg0); fi   # unoptimised build for the deep-input stack check
+if [ "$ID" = "C19" ] || [ "$ID" = "C04" ] || [ "$ID" = "C07" ]; then profiles+=(dbg0); fi   # unoptimised build for the deep-input stack check
 build_harness "${profiles[@]}" || exit 2
 export MLV_DBGCHK_BIN="$NATIVE_TARGET_DIR/dbgchk/mlv"
 export MLV_DBG0_BIN="$CARGO_TARGET_DIR/dbg0/mlv"
